@@ -154,6 +154,7 @@ Fixpoint state_after (ls : list litem) (st : list entry) (rm : remap) (b : bindi
       end
   | LMid _ :: r => state_after r (st ++ [mkE VNil cur cur]) rm b children cur
   | LFinal _ :: r => state_after r st rm b children cur
+  | LMark _ :: r => state_after r st rm b children cur
   end.
 
 Lemma state_after_agree : forall ls st rm b ch cur st' rm' b' ch' cur',
@@ -161,10 +162,11 @@ Lemma state_after_agree : forall ls st rm b ch cur st' rm' b' ch' cur',
 Proof.
   induction ls as [|x ls IH]; intros st rm b ch cur st' rm' b' ch' cur' H E.
   - cbn in E. now inversion E; subst.
-  - destruct x as [pos|cs|cs]; cbn [state_after] in E.
+  - destruct x as [pos|cs|cs|m]; cbn [state_after] in E.
     + destruct ch as [|c ch0]; [discriminate|]. eapply IH; [|exact E].
       destruct (0 <? pos); [now apply agree_bind | now apply agree_push].
     + eapply IH; [|exact E]. now apply agree_push.
+    + eapply IH; [|exact E]. exact H.
     + eapply IH; [|exact E]. exact H.
 Qed.
 
@@ -175,10 +177,11 @@ Lemma run_app : forall tab cas l1 l2 base st rm b ch cur st' rm' b' ch' cur',
 Proof.
   induction l1 as [|x l1 IH]; intros l2 base st rm b ch cur st' rm' b' ch' cur' E.
   - cbn in E. inversion E; subst. reflexivity.
-  - destruct x as [pos|cs|cs]; cbn [state_after] in E; cbn [app run].
+  - destruct x as [pos|cs|cs|m]; cbn [state_after] in E; cbn [app run].
     + destruct ch as [|c ch0]; [discriminate|]. eapply IH; exact E.
     + rewrite <- app_assoc. f_equal. eapply IH; exact E.
     + rewrite <- app_assoc. f_equal. eapply IH; exact E.
+    + eapply IH; exact E.
 Qed.
 
 (* the outputs of the commands run at a mid-rule site / at the end of the rule *)
@@ -190,16 +193,17 @@ Theorem site_outputs : forall tab cas l1 site l2 base ch start st rm b ch' cur,
       match site with
       | LMid cs => run_cmds tab cas cs rm base st (mkE VNil cur cur)
       | LFinal cs => run_cmds tab cas cs rm base st (mkE VNil (first_off st cur) cur)
-      | LRef _ => []
+      | LRef _ | LMark _ => []
       end ++ after.
 Proof.
   intros tab cas l1 site l2 base ch start st rm b ch' cur E. split.
   - eapply state_after_agree; [apply agree_nil | exact E].
   - rewrite (run_app tab cas l1 (site :: l2) base [] [] [] ch start st rm b ch' cur E).
-    eexists. destruct site as [pos|cs|cs]; cbn [run].
+    eexists. destruct site as [pos|cs|cs|m]; cbn [run].
     + eexists. cbn [app]. reflexivity.
     + eexists. reflexivity.
     + eexists. reflexivity.
+    + eexists. cbn [app]. reflexivity.
 Qed.
 
 (* ---------- ${first()} / ${last()} ---------- *)
@@ -245,7 +249,7 @@ Qed.
 
 (* which of the entries a rule pushes belong to a symbol with a position *)
 Definition entry_tag (x : litem) : list bool :=
-  match x with LRef pos => [0 <? pos] | LMid _ => [false] | LFinal _ => [] end.
+  match x with LRef pos => [0 <? pos] | LMid _ => [false] | LFinal _ | LMark _ => [] end.
 
 Definition entry_tags (ls : list litem) : list bool := flat_map entry_tag ls.
 
@@ -283,10 +287,11 @@ Proof.
   induction ls as [|x ls IH]; intros st rm b ch cur st' rm' b' ch' cur' tags H E.
   - cbn in E. inversion E; subst. unfold entry_tags. cbn. now rewrite app_nil_r.
   - unfold entry_tags. cbn [flat_map]. fold (entry_tags ls). rewrite app_assoc.
-    destruct x as [pos|cs|cs]; cbn [state_after entry_tag] in *.
+    destruct x as [pos|cs|cs|m]; cbn [state_after entry_tag] in *.
     + destruct ch as [|c ch0]; [discriminate|]. eapply IH; [|exact E].
       destruct (0 <? pos); [now apply tagged_bind | now apply tagged_push].
     + eapply IH; [|exact E]. now apply tagged_push.
+    + rewrite app_nil_r. eapply IH; [|exact E]. exact H.
     + rewrite app_nil_r. eapply IH; [|exact E]. exact H.
 Qed.
 
@@ -346,6 +351,7 @@ Proof.
   - apply IHp.
   - apply IHp.
   - now left.
+  - now left.
 Qed.
 
 (* ---------- positions handed out by convert ---------- *)
@@ -354,10 +360,11 @@ Fixpoint positions (l : list item) : list nat :=
   | [] => []
   | IRef p :: r => p :: positions r
   | ICmd _ :: r => positions r
+  | IMark _ :: r => positions r
   end.
 
 Lemma positions_app : forall a b, positions (a ++ b) = positions a ++ positions b.
-Proof. induction a as [|[p|c] a IH]; intro b; cbn; [reflexivity| now rewrite IH | apply IH]. Qed.
+Proof. induction a as [|[p|c|m] a IH]; intro b; cbn; [reflexivity| now rewrite IH | apply IH | apply IH]. Qed.
 
 (* every position mentioned in an expansion of p lies in [lo, hi) *)
 Definition within (lo hi : nat) (l : list item) : Prop := Forall (fun p => lo <= p < hi) (positions l).
@@ -409,6 +416,7 @@ Proof.
     destruct (nm_get _ (nm, Some 0%N)); [|destruct (nm_get _ (nm, None))]; unfold on_both; cbn;
       repeat (match goal with |- context [match ?x with _ => _ end] => destruct x end; cbn); lia.
   - cbn. lia.
+  - cbn. lia.
 Qed.
 
 Lemma push_name_pos : forall s nm ps, c_pos (push_name s nm ps) = c_pos s.
@@ -452,6 +460,7 @@ Proof.
   - specialize (IHp s). destruct (convert p s) as [q' s1]. cbn [fst snd expand] in *.
     specialize (IHp x Hin). destruct IHp as [I1 F1]. split; [exact I1|].
     destruct (collect q'); [exact F1|]. now rewrite push_name_pos.
+  - cbn [fst snd expand] in *. destruct Hin as [<-|[]]. cbn. split; constructor.
   - cbn [fst snd expand] in *. destruct Hin as [<-|[]]. cbn. split; constructor.
 Qed.
 
